@@ -25,7 +25,10 @@ BV = [lambda a, b: [((a,), 1)],
       lambda a, b: [((a,), 1), ((b,), 1), ((a, b), -1)],
       lambda a, b: [((a,), 1), ((b,), 1), ((a, b), -2)],
       lambda a, b: [((), 1)],
-      lambda a, b: []]
+      lambda a, b: [],
+      # the same function spelled with keys that only agree after squashing (a model adds them up)
+      lambda a, b: [((a, b), 2), ((b, a), -1)],
+      lambda a, b: [((a, a), 1), ((b, b), 1), ((a, b), -1), ((b, a), -1)]]
 
 
 def gen_node(rng, depth, labs, uni, force_gate=False):
